@@ -349,6 +349,11 @@ PROPS = {
         "level": "proof",
         "level_prefix": "Partial proof -- contracts discharged without bound on the mechanisms named below, not the whole statement (bounded stand-ins and what is left out are listed): ",
         "units": ["tsig"],
+        "vx_search": {"bin": "c11_search_small_tsig", "crate": "replay_tsig", "release": True,
+                      "what": "Time48 wire round trip and eq_fudged on a grid around the byte and fudge edges; Key::new against the RFC 8945 "
+                              "5.2.2.1 length rule for all algorithms and lengths 0..=70; request/answer/three-answer sequences signed and "
+                              "verified for every signing length of HMAC-SHA256, one flipped bit rejected; 99 unsigned answers accepted, the "
+                              "100th refused -- on the real crate"},
         "kani": [],
         "replays": [
             {"bin": "d36_tsig_sequence_truncated_mac", "crate": "replay_tsig", "finding": "D36"},
